@@ -1,5 +1,5 @@
 """property -> rules"""
-from . import rules_dd, rules_bounds, rules_limits, rules_tools, rules_conv, rules_handles, rules_access, rules_coders, rules_errors, rules_layout, rules_ann, rules_mem, rules_sd, rules_cache
+from . import rules_dd, rules_bounds, rules_limits, rules_tools, rules_conv, rules_handles, rules_access, rules_coders, rules_errors, rules_layout, rules_ann, rules_mem, rules_sd, rules_cache, rules_attr, rules_gr
 
 CLANG = "clang 14 parser, constant evaluator and CFG builder (via tools/h4x.cc)"
 CDB = "compile flags taken from ninja -t compdb of /repo/_build (or a throw-away cmake configure)"
@@ -227,6 +227,30 @@ PROPS["C04"] = {
     "level_text": "All-paths typestate of cache pages (got / modified / put dirty) and of the eviction path: a dirty page can be neither dropped nor put back clean for any cache size or access order.",
     "level_note": "Thin by design; see Not decided.",
     "technique": "typestate dataflow over clang CFGs (cache page states, flush-before-evict, sync-before-close pairing)",
+}
+
+PROPS["C09"] = {
+    "rules": [rules_gr.rule_il_symmetry, rules_gr.rule_il_range, _layouts("image-dims")],
+    "level": "other",
+    "explanation": "Decides structural necessary conditions of 'images round-trip in every interlace': (ILSYM) GRIil_convert sets up the stride tables of its input and output buffer in two switches over the interlace code; converting X->Y and Y->X are inverse permutations only if both describe each interlace identically, so every arm of the `inil` switch must equal the `outil` arm for the same code after renaming in_*/inbuf to out_*/outbuf, all three codes must have an arm in both, and any other code takes the failing default. (ILRANGE) the two setters of the requested interlace (GRreqimageil, GRreqlutil) store the code only on paths where it is confined to PIXEL..COMPONENT. (F1) the image-dimension record (DFTAG_ID/LD) is written and read as the frozen format table says. Not decided (value-level): region/stride addressing in GRwriteimage/GRreadimage, first-write fill, palette entry values, behaviour under compression/chunking (see C04/C05 for their structural clauses).",
+    "rule_text": "instances = interlace codes x the two switches of GRIil_convert, the two interlace setters, rows of the image-dims layout",
+    "trusted": [CLANG, CDB, "the frozen image-dims layout (DESIGN Appendix A)"],
+    "assumptions": ["GRIil_convert is the only interlace permutation used by GRreadimage/GRwriteimage/GRreadlut (its callers are not enumerated)"],
+    "level_text": "Sibling agreement of the two stride-table set-ups plus writer=reader=spec for the dimension record: holds for every image size, component count and number type.",
+    "level_note": "Thin by design; the addressing arithmetic of region I/O is value-level and not decided.",
+    "technique": "AST sibling-agreement check and layout extraction over the clang AST, interval dataflow for the range guard",
+}
+
+PROPS["C10"] = {
+    "rules": [rules_attr.rule_hdirty, rules_attr.rule_grattr, (lambda ctx: rules_dd.rule_F3c(ctx, {"vgroup_desc", "vdata_desc"})), _layouts("VG", "VH")],
+    "level": "other",
+    "explanation": "Decides the persistence clause of 'attributes are returned as last set' per interface: (HDIRTY) SD: every non-failing path of a public SD function on which SDIputattr -- the one routine that puts or replaces an attribute-list entry -- succeeded also sets NC_HDIRTY on the file handle (otherwise SDend does not rewrite the header and the attribute is lost); (GRATTR) GR: every non-failing path that marks an attribute's cached value changed or inserts an attribute node also sets the owner's attr_modified/gattr_modified flag (directly or through the update_flag pointer loaded with its address); (F3c) Vgroup/Vdata: every store to a persisted field of the in-memory record -- the attribute list and count included -- comes with `marked`; (F1) the VG and VH records, which carry the attribute lists, are written and read as the frozen format table says. Not decided: the values returned, index stability on replace, the type/count-change refusal, name/index/ref bijections.",
+    "rule_text": "instances = SDIputattr call sites per SD function (15), attribute changes in the GR interface, functions storing into persisted Vgroup/Vdata fields, layout rows of VG/VH",
+    "trusted": [CLANG, CDB, "the frozen VG/VH layouts"],
+    "assumptions": ["SDIputattr is the only writer of SD attribute lists from the SD interface (NC_aput of the nc interface is not covered)"],
+    "level_text": "All-paths dirty-flag discipline for attribute mutators in all three interfaces: an attribute that was set cannot be silently left out of the file, for any sequence of setters.",
+    "level_note": "Decides persistence only; equality of returned values is value-level.",
+    "technique": "path-sensitive dirty-flag typestate over clang CFGs plus layout extraction",
 }
 
 NOT_APPLICABLE = {
